@@ -33,6 +33,9 @@ def _shape(rnd):
         sh['src'] = src
     if rnd.random() < 0.5:
         sh['items'] = {'a': rnd.randint(0, 9), 'tag': rnd.choice(['x', 'y'])}
+        if rnd.random() < 0.3:
+            # data items may have any name, also names of parameters of the methods they pass through
+            sh['items'][rnd.choice(['etype', 'data', 'blk', 'args', 'kwargs'])] = 'q'
     return sh
 
 
@@ -69,7 +72,7 @@ def _stim(rnd):
     else:
         actions.append({'t': tstop, 'yields': 1, 'op': 'hit', 'dest': trig[0], 'value': 7})
     # in the very step of the stop request, and while the clean-up is in progress
-    actions += [ext(tstop, 1), ext(tstop, 2), ext(tstop + 1), ext(tstop + 2), ext(tstop + 5)]
+    actions += [ext(tstop, 0), ext(tstop, 1), ext(tstop, 2), ext(tstop + 1), ext(tstop + 2), ext(tstop + 5)]
     actions.sort(key=lambda a: (a['t'], a.get('yields', 0)))
     # keep the stop request before the sends of the same step
     actions.sort(key=lambda a: (a['t'], a.get('yields', 0), 0 if a['op'] != 'ext' else 1))
